@@ -120,6 +120,11 @@ def inv_items(props, tier):
         out.append(dict(kind='inv', mode='group', kind2=kind, name=name, repeat=True, props=list(props)))
     for kind, name, late in [('dep', 'g_tag1', ['a_dep_tag2']), ('tag', 't1', ['g_tag1', 'a_tag1_ev1']), ('event', 'e1', ['g_ev1']), ('cache', 'custom_g', ['g_named']), ('tag', 't2', ['a_dep_tag2'])]:
         out.append(dict(kind='inv', mode='group', kind2=kind, name=name, late=late, repeat=True, props=list(props)))
+    # user code that registers a cache through the public registry API as well: before its first use with the rules its attribute declares
+    # (the macro registers again on first use), or after use with those rules plus a run-time tag
+    for kind, name, pre, re_ in [('tag', 't1', ['g_tag1', 'a_tag1_ev1'], []), ('event', 'e1', ['g_ev1', 'a_tag1_ev1'], []), ('dep', 'g_tag1', ['a_dep_tag2'], []),
+                                 ('tag', 't1', [], ['g_tag1', 'a_tag1_ev1']), ('event', 'e1', [], ['a_tag1_ev1']), ('dep', 'g_tag1', [], ['a_dep_tag2']), ('tag', 't2', ['g_tag12'], ['a_dep_tag2'])]:
+        out.append(dict(kind='inv', mode='group', kind2=kind, name=name, prereg=pre, rereg=re_, repeat=True, props=list(props)))
     # the same name requested under two different kinds, one after the other (a name may be a tag of one cache and an event of another)
     for k1, k2, name in [('tag', 'event', 't1'), ('event', 'tag', 't1'), ('tag', 'dep', 'g_tag1'), ('dep', 'cache', 'g_tag1'), ('cache', 'dep', 'g_tag1')]:
         out.append(dict(kind='inv', mode='group', kind2=k1, kind2b=k2, name=name, repeat=True, props=list(props)))
